@@ -473,6 +473,17 @@ pub fn gen_c15(ctx: &Ctx, rng: &mut Rng, out: &mut Vec<String>) {
         let d = dict_spelling(rng, descr, false, &[2], true);
         out.push(format!("io.npyread\t{}", hex(&frame(1, 0, &d, &[0u8; 16], rng, true))));
     }
+    // wrong magic (six or more bytes present), and text where npy is expected
+    for (i, m) in [&b"\x93NUMPX"[..], b"\x92NUMPY", b"NUMPY\x93", b"\x93numpy", b"#SHAPE", b"\x00\x00\x00\x00\x00\x00"].iter().enumerate() {
+        let d = dict_spelling(rng, "<f8", false, &[1], true);
+        let mut f = frame(1, 0, &d, &[0u8; 8], rng, true);
+        f[..6].copy_from_slice(m);
+        out.push(format!("io.npyread\t{}", hex(&f)));
+        if i < 2 { out.push(format!("io.specread\t{}", hex(&f))); }
+    }
+    // a header dict too long for the v1.0 length field: the writer must return an error (in-process, one value)
+    out.push(format!("io.npyrt\t{}\t3ff0000000000000", nats(&vec![1usize; 21900])));
+    out.push(format!("io.npyrt\t{}\t3ff0000000000000", nats(&vec![1usize; 21800])));
     for major in [0u8, 4, 255] { let d = dict_spelling(rng, "<f8", false, &[1], true); out.push(format!("io.npyread\t{}", hex(&frame(major, 0, &d, &[0u8; 8], rng, true)))); }
     for _ in 0..(if t { 60 } else { 12 }) {
         let shape = shapes::random_shape(rng, 1, 3, 1, 3, 12);
